@@ -44,3 +44,29 @@ fn(RMD + '._generate_face_corners', properties=['C02'],
    # one corner record per face-vertex incidence, in element order, with its vertex and its owner face
    ensures=['len(self.face_corners._elem) == first[len(self.faces._data)]', 'len(self.face_corners._adj) == first[len(self.faces._data)]',
             'corners_of(self.face_corners, self.faces._data, first, len(self.faces._data))'])
+
+# ---------------------------------------------------------------- cell corners (same numbering over the cells; `cfirst` = prefix sums of the cell arities)
+# Three cases of the real function: both tables empty -> both generated; vertex table pre-filled but owner table empty -> only the owners
+# are generated (the vertex table must be kept); otherwise the tables are taken as given.
+# NOTE: writing this contract exposed a defect of the pinned tree (owners were appended to the vertex table): fixed in /repo.
+fn(RMD + '._generate_cell_corners', properties=['C02'],
+   ghost_params={'cfirst': 'map[int,int]'},
+   requires=['prefix(cfirst, self.cells._data)', 'len(self.cell_corners._attr) == 0',
+             # a pre-filled vertex table lists the cell vertices in element order
+             'implies(len(self.cell_corners._elem) > 0, len(self.cell_corners._elem) == cfirst[len(self.cells._data)] '
+             '    and all(all(self.cell_corners._elem[cfirst[f] + i] == self.cells._data[f][i] for i in range(len(self.cells._data[f]))) for f in range(len(self.cells._data))))',
+             'implies(len(self.cell_corners._adj) > 0 and len(self.cell_corners._elem) > 0, len(self.cell_corners._adj) == cfirst[len(self.cells._data)] '
+             '    and corners_of(self.cell_corners, self.cells._data, cfirst, len(self.cells._data)))',
+             'implies(len(self.cell_corners._elem) == 0, len(self.cell_corners._adj) == 0)'],
+   modifies=['self.cell_corners._elem', 'self.cell_corners._adj'],
+   loops={0: loop(invariant=['len(self.cell_corners._adj) == cfirst[it0]', 'len(self.cell_corners._elem) == cfirst[len(self.cells._data)]', 'len(self.cell_corners._attr) == 0',
+                             'all(self.cell_corners._elem[k] == old(self.cell_corners._elem[k]) for k in range(cfirst[len(self.cells._data)]))',
+                             'all(all(self.cell_corners._adj[cfirst[f] + i] == f for i in range(len(self.cells._data[f]))) for f in range(it0))']),
+          1: loop(invariant=['len(self.cell_corners._elem) == cfirst[it1]', 'len(self.cell_corners._adj) == cfirst[it1]', 'len(self.cell_corners._attr) == 0',
+                             'corners_of(self.cell_corners, self.cells._data, cfirst, it1)']),
+          2: loop(invariant=['len(self.cell_corners._elem) == cfirst[it1] + it2', 'len(self.cell_corners._adj) == cfirst[it1] + it2', 'len(self.cell_corners._attr) == 0',
+                             'corners_of(self.cell_corners, self.cells._data, cfirst, it1)',
+                             'all(self.cell_corners._elem[cfirst[it1] + i] == self.cells._data[it1][i] and self.cell_corners._adj[cfirst[it1] + i] == it1 for i in range(it2))'])},
+   # one corner record per cell-vertex incidence, in element order, with its vertex and its owner cell
+   ensures=['len(self.cell_corners._elem) == cfirst[len(self.cells._data)]', 'len(self.cell_corners._adj) == cfirst[len(self.cells._data)]',
+            'corners_of(self.cell_corners, self.cells._data, cfirst, len(self.cells._data))'])
